@@ -1,9 +1,11 @@
 """C15 — output of earlier inputs survives a later failure."""
 import json
+import os
 import random
 
 import cli
 import common
+import corpus
 
 META = {
     "level": "proof",
@@ -82,6 +84,29 @@ def run(outcome, tier, seed):
                     names = [rng.choice(GOOD) for _ in range(rng.randint(1, 6))]
                     cases.append(cli.Case(["-t", to] + names, stdin, rng.choice(["pipe", "file"])))
                     meta.append(("none", len(names), to))
+        # earlier inputs that are streams (standard input, a FIFO) of every shape: read to their end while the format is being
+        # detected, or translated document by document; named or detected format
+        shapes = [("yaml", b"a: 1\nb: [2, 3]\n"), ("yaml", b"a: 1\n---\nb: 2\n"), ("toml", b'k = 1\n[t]\nj = "v"\n'), ("json", b"42"),
+                  ("json", b'"s"'), ("json", b'{"a":1}\n{"b":2}\n'), ("msgpack", corpus.mp({"a": [1, 2]})), ("yaml", b"- x\n- y\n")]
+        for fmt, data in shapes:
+            for opt in ([], ["-f", fmt]):
+                for to in ("json", "yaml", "msgpack"):
+                    for bad in ("missing.json", "bad.json", "und.txt"):
+                        if opt and bad == "und.txt":
+                            continue
+                        if rng.random() < (0.0 if tier == "thorough" else 0.5):
+                            continue
+                        cases.append(cli.Case(opt + ["-t", to, "-", bad], data, rng.choice(["pipe", "file"])))
+                        meta.append(("after a stream on stdin", 1, to))
+                        if not opt:
+                            name = "q%d.%s" % (len(cases), "dat")
+                            os.mkfifo(fx.path(name))
+                            cases.append(cli.Case(["-t", to, name, "a.json", bad], None, rng.choice(["pipe", "file"]), fifos={name: data}))
+                            meta.append(("after a stream from a FIFO", 2, to))
+        # a device that takes nothing, with less output than any buffer holds: success must not be reported
+        for argv in (["-tj", "a.json"], ["-ty", "a.json", "m.json"], ["-tm", "a.json"], ["-tt", "c.toml"], ["-tj", "empty.json", "a.json"]):
+            cases.append(cli.Case(argv, None, "devfull"))
+            meta.append(("stdout is /dev/full", 0, "json"))
         results = cli.predict_and_run(common.XT_DEBUG, fx.dir, cases)
         hist, nontrivial = {}, 0
         for r, (kind, pos, to) in zip(results, meta):
